@@ -275,6 +275,8 @@ def main(tier, seed):
     r9.c13_self_view_assignment(rep, algopy, rng, tier)
     import r10
     r10.c13_fft_out_buffers(rep, algopy, rng, tier)
+    import r12
+    r12.c13_reduce_model(rep, algopy, rng, tier, PID)
     return rep.finish()
 
 
